@@ -1,5 +1,6 @@
 //! C18 — word matching is a longest common subsequence; edited words are its complement.
 use crate::core::*;
+use crate::gen;
 use rand::seq::IndexedRandom;
 use rand::Rng as _;
 use serde::{Deserialize, Serialize};
@@ -123,6 +124,22 @@ impl Lcs<'_> {
 }
 
 fn ref_lcs(a: &[&str], b: &[&str], ic: bool) -> usize {
+    if a.len() * b.len() > 4096 {
+        // `large` lane: the same suffix recurrence bottom-up over a full table (no recursion)
+        let (n, m) = (a.len(), b.len());
+        let w = m + 1;
+        let mut t = vec![0u32; (n + 1) * w];
+        for i in (0..n).rev() {
+            for j in (0..m).rev() {
+                t[i * w + j] = if same(a[i], b[j], ic) {
+                    1 + t[(i + 1) * w + j + 1]
+                } else {
+                    t[(i + 1) * w + j].max(t[i * w + j + 1])
+                };
+            }
+        }
+        return t[0] as usize;
+    }
     Lcs {
         a,
         b,
@@ -181,9 +198,16 @@ impl Prop for C18 {
     const ID: &'static str = "C18";
 
     fn lanes(tier: Tier) -> Vec<Lane> {
-        vec![Lane::new("main", tier.pick(4_000_000, 60_000_000))
-            .cap(tier.pick(150, 1200))
-            .floor(tier.pick(20_000, 1_000_000))]
+        vec![
+            Lane::new("main", tier.pick(4_000_000, 60_000_000))
+                .cap(tier.pick(150, 1200))
+                .floor(tier.pick(20_000, 1_000_000)),
+            // sequences of 100 - 1100 words (common subsequences beyond 2^8), b independent or a
+            // with up to |a|/25 edits; reference bottom-up above 4096 table cells
+            Lane::new("large", tier.pick(6_000, 120_000))
+                .cap(tier.pick(150, 1200))
+                .floor(tier.pick(400, 8_000)),
+        ]
     }
 
     fn rule() -> &'static str {
@@ -214,9 +238,21 @@ impl Prop for C18 {
                 vocab.push(w);
             }
         }
+        // `large` lane: sequences of 100 - 1100 words, half of the cases over a bigger vocabulary
+        // (numbered words) so that long common subsequences need the right alignment
+        let numbered: Vec<String> = if gen::scale() > 1 && rng.random_bool(0.5) {
+            let kk = *[10usize, 50, 400].choose(rng).unwrap_or(&50);
+            (0..kk).map(|i| format!("{}{i}", BASE.choose(rng).copied().unwrap_or("w"))).collect()
+        } else {
+            vec![]
+        };
+        if !numbered.is_empty() {
+            vocab = numbered.iter().map(|s| s.as_str()).collect();
+        }
         let p_case = *[0.0, 0.25, 0.5].choose(rng).unwrap_or(&0.25);
         let len = |rng: &mut Rng| -> usize {
             match rng.random_range(0..100) {
+                _ if gen::scale() > 1 => rng.random_range(100..=100 + gen::sc(4)),
                 0..=2 => rng.random_range(11..=30),
                 3..=7 => 0,
                 _ => rng.random_range(1..=10),
@@ -229,7 +265,7 @@ impl Prop for C18 {
             (0..nb).map(|_| gen_word(rng, &vocab, p_case)).collect()
         } else {
             let mut b = a.clone();
-            let edits = rng.random_range(0..=4);
+            let edits = rng.random_range(0..=4.max(b.len() / 25));
             for _ in 0..edits {
                 let n = b.len();
                 match rng.random_range(0..6) {
